@@ -70,7 +70,8 @@ func getCiphertext(encryptedKey *etree.Element) ([]byte, error) {
 	if ciphertextEl == nil {
 		return nil, fmt.Errorf("cannot find CipherData element containing a CipherValue element")
 	}
-	ciphertext, err := base64.StdEncoding.DecodeString(strings.TrimSpace(ciphertextEl.Text()))
+	// xs:base64Binary may contain white space anywhere (line-wrapped, indented values)
+	ciphertext, err := base64.StdEncoding.DecodeString(strings.Join(strings.Fields(ciphertextEl.Text()), ""))
 	if err != nil {
 		return nil, err
 	}
